@@ -366,6 +366,11 @@ func (p *Parser) expr(in comb.Input) (comb.Output, bool) {
 
 // Parse is the topmost parser combinator for parsing a regular expression read from the input.
 func (p *Parser) Parse(regex string) (comb.Output, bool) {
+	// An empty pattern is not a regular expression (and the input below needs at least one character).
+	if regex == "" {
+		return comb.Output{}, false
+	}
+
 	in := newStringInput(regex)
 	return p.regex(in)
 }
